@@ -214,6 +214,12 @@ static std::string serialOne(const std::vector<std::string>& f) {
 		bool ok = runQuiescent(a, recA, 60);
 		std::vector<std::string> pre = f[2] == "-" ? std::vector<std::string>() : uv::split(f[2], ',');
 		for (size_t i = 0; i < pre.size() && ok; i++) {
+			if (pre[i].size() > 1 && pre[i][0] == '=') {
+				// "=<ms>": let time pass before the snapshot (pending delayed events age), then handle what arrived
+				std::this_thread::sleep_for(std::chrono::milliseconds(atoi(pre[i].c_str() + 1)));
+				ok = runQuiescent(a, recA, 60);
+				continue;
+			}
 			a.receive(Event(pre[i], Event::EXTERNAL));
 			if (i + 1 < pre.size()) ok = runQuiescent(a, recA, 60);
 			else {
@@ -307,7 +313,7 @@ int cmd_serial(int argc, char** argv) {
 
 // api: <engine>\t<chart s-expression (ignored)>\t<ops>\t<hex SCXML text>
 //   ops (comma separated): s = one step(0); q = step until IDLE/FINISHED (cap 60); e:<name> = receive();
-//   c = cancel(); r = reset(); d = destroy the interpreter and create a new one; g = getState();
+//   i:<name> = enqueueInternal() from outside a step; c = cancel(); r = reset(); d = destroy the interpreter and create a new one; g = getState();
 //   T = from here on a token "@<ms>" precedes every bpe:/bc: token and follows every ac: token (monotonic clock)
 static void nameAnon(Interpreter& interp) {
 	int k = 0;
@@ -380,6 +386,10 @@ static std::string apiOne(const std::string& engine, const std::string& ops, con
 				nameAnon(*interp);
 			} else if (op.size() > 2 && op[0] == 'e' && op[1] == ':') {
 				interp->receive(Event(op.substr(2), Event::EXTERNAL));
+			} else if (op.size() > 2 && op[0] == 'i' && op[1] == ':') {
+				// an internal event from outside a macrostep - what the timer thread does for a delayed <send target="#_internal">
+				// and for the error event of a delayed delivery that fails
+				interp->getImpl()->enqueueInternal(Event(op.substr(2), Event::INTERNAL));
 			} else if (op.size() > 2 && op[0] == 'w' && op[1] == ':') {
 				// wait <ms>: lets timers fire / other threads run
 				std::this_thread::sleep_for(std::chrono::milliseconds(atoi(op.substr(2).c_str())));
